@@ -28,6 +28,8 @@ pub const PALETTE: &[&str] = &[
     "-\t\n", "1.\t\n", ">\t\n", ">\t", "-\t", "\n\u{e9}t\u{e9}", "\n\u{4e16}", "[`a`  \nb](u)", "[[u|\\*x]]", "![`a`\\\nb](u)",
     // schemes that contain an autolink trigger character after their first letter (relaxed autolinks rewind over text nodes)
     "the news://n.o/p x", "a twitter://x.y", "rawr://r.s",
+    // upper-case spellings of what the extensions react to in lower case
+    "ORDER AT WWW.EXAMPLE.COM/SHOP NOW", "HTTP://EXAMPLE.COM/X", "MAILTO:A@B.C", "[!note]", "<SCRIPT>", "&AMP;", "&COPY;",
 ];
 
 pub const HOSTILE: &[&str] = &[
